@@ -19,6 +19,11 @@ import traceback
 import warnings
 
 
+class LibraryStall(BaseException):
+    """No driver progress for the stall budget while inside a library call (BaseException so
+    that a driver's `except Exception` around the call does not swallow it)."""
+
+
 class Ctx:
     def __init__(self, prop, tier, seed):
         import numpy as np
@@ -34,6 +39,7 @@ class Ctx:
         self.notes = []
         self.t0 = time.time()
         self.budget_s = None
+        self.last_progress = time.time()
 
     @property
     def thorough(self):
@@ -42,6 +48,7 @@ class Ctx:
     def case(self, key, nontrivial=True, contract=None, sample=None):
         """Count one evaluated case; `key` identifies distinctness."""
         self.evaluations += 1
+        self.last_progress = time.time()
         if nontrivial:
             self._distinct.add(hashlib.md5(repr(key).encode()).hexdigest())
         if contract:
@@ -51,6 +58,7 @@ class Ctx:
 
     def check(self, ok, key, what, case=None):
         """Record a contract failure (key = stable id of the failing site/input class)."""
+        self.last_progress = time.time()
         if ok:
             return True
         if len(self.failures) < 200:
@@ -81,6 +89,17 @@ def main(argv=None):
     t0 = time.time()
     res = {'prop': a.prop, 'driver': a.prop, 'tier': a.tier, 'seed': a.seed, 'crashed': None}
     ctx = Ctx(a.prop, a.tier, a.seed)
+    # stall watchdog: a whole quick driver takes well under a minute; no evaluated case for
+    # `stall_s` seconds means a library call does not return (e.g. a loop that no longer ends)
+    import signal
+    stall_s = float(os.environ.get('VERIF_RTC_STALL_S', 900 if a.tier == 'quick' else 5400))
+
+    def _tick(signum, frame):
+        if time.time() - ctx.last_progress > stall_s:
+            ctx.last_progress = time.time() + 10 ** 9      # fire once
+            raise LibraryStall(''.join(traceback.format_stack(frame)[-12:]))
+    signal.signal(signal.SIGALRM, _tick)
+    signal.setitimer(signal.ITIMER_REAL, 15, 15)
     try:
         drv = importlib.import_module(f'vf.rtc.drivers.{a.prop}')
         res['bounds'] = drv.BOUNDS
@@ -88,6 +107,22 @@ def main(argv=None):
         with warnings.catch_warnings():
             warnings.simplefilter('ignore')
             drv.run(ctx)
+    except LibraryStall as exc:
+        signal.setitimer(signal.ITIMER_REAL, 0)
+        tb = traceback.extract_tb(exc.__traceback__)
+        lib = [f for f in tb if '/vf/' not in f.filename and 'photutils' in f.filename]
+        drv_frames = [f for f in tb if '/vf/rtc/drivers/' in f.filename]
+        if lib and drv_frames:
+            top = lib[0]
+            ctx.failures.append({
+                'key': f'rtc:{a.prop}/no-return/{os.path.basename(top.filename)}:{top.name}',
+                'what': f'the library call {top.name} ({top.filename}:{top.lineno}) made from the '
+                        f'driver function {drv_frames[-1].name} did not return within {stall_s:.0f} s '
+                        '(an entire driver run takes well under a minute); the driver did not finish',
+                'case': {'kind': 'no-return', 'stack': str(exc)[-2500:]}})
+            ctx.notes.append('driver aborted: a call into the library under test did not return')
+        else:
+            res['crashed'] = 'driver stalled outside the library: ' + str(exc)[-2500:]
     except Exception as exc:  # noqa: BLE001
         tb = traceback.extract_tb(exc.__traceback__)
         inner = tb[-1] if tb else None
@@ -107,6 +142,7 @@ def main(argv=None):
             ctx.notes.append('driver aborted by an exception raised inside the library under test')
         else:
             res['crashed'] = traceback.format_exc()[-3000:]
+    signal.setitimer(signal.ITIMER_REAL, 0)
     res.update(evaluations=ctx.evaluations, distinct_nontrivial=len(ctx._distinct),
                samples=ctx.samples, failures=ctx.failures, contracts_evaluated=ctx.contracts,
                notes=ctx.notes, wall_s=round(time.time() - t0, 2))
